@@ -41,7 +41,7 @@ _hk(4, [], [dict(K=1, MAXE=2, CAPU=4, HCAP=4, _timeout=1800, _mem_gb=14)], unwin
 _hk(5, [], [dict(K=1, MAXE=2, CAPU=4, HCAP=4, _timeout=1800, _mem_gb=14)], unwind=6, optional=True)
 _h('hybrid2', 'h_hybrid2', 'legacy hybrid_ndarray<unsigned,8,2>: K symbolic steps {resize(a,b) with a,b in MINE..MAXE, write(i,j), assign, copy, self-assign} on two objects; shape/strides/known elements', quick=[{'K': 2}], thorough=[{'K': 3, **BIG}], unwind=10, mem_gb=6)
 _h('dynamic', 'h_dynamic', 'legacy dynamic_ndarray<unsigned>: K symbolic steps {resize(shape dim 1..3, <= 8 cells), write(buffer position), assign, copy, self-assign}', quick=[], thorough=[{'K': 1, 'MAXE': 2, '_timeout': 1800, '_mem_gb': 14}], optional=True)
-_h('dynamic_assign_from', 'h_dynamic_assign_from', 'dynamic_ndarray<unsigned> (2-d, symbolic shape) = hybrid 2-d array (symbolic shape and data), <= 8 cells', quick=[{'MAXE': 3}], kf=['KF_C20_DYNAMIC_ASSIGN_SHAPE_MISMATCH'], mem_gb=8)
+_h('dynamic_assign_from', 'h_dynamic_assign_from', 'dynamic_ndarray<unsigned> (2-d, symbolic shape, prepared through resize overload RSZ: 0 integers, 1 std::array, 2 static_vector, 3 std::vector) = hybrid 2-d array (symbolic shape and data), <= 8 cells', quick=[{'MAXE': 3}, {'MAXE': 2, 'RSZ': 1}], thorough=[{'MAXE': 3, 'RSZ': r} for r in (0, 1, 2, 3)], kf=['KF_C20_DYNAMIC_ASSIGN_SHAPE_MISMATCH'], mem_gb=8)
 _h('fixed23', 'h_fixed23', 'fixed_ndarray<unsigned,2,3>: K symbolic steps {write(i,j), assign, copy, self-assign} on two objects with symbolic initial contents', quick=[{'K': 3}], thorough=[{'K': 5}])
 _h('cast', 'h_cast', 'cast of a hybrid 2-d array (extents MINE..MAXE, <= 8 cells, all data symbolic): CASTK 0 cast<unsigned char>, 1 cast<long> of int, 2 cast<float> (bit-exact), 4 to ndarray_t<static_vector<unsigned,8>, static_vector<size_t,3>>',
    quick=[{'CASTK': 0}, {'CASTK': 1}, {'CASTK': 2, 'MAXE': 2}], thorough=[{'CASTK': 0}, {'CASTK': 1}, dict(CASTK=2, **BIG), dict(CASTK=4, MAXE=3, **BIG)], unwind=12, mem_gb=6)
